@@ -316,6 +316,29 @@ func tail(path string, n int) string {
 	return string(b)
 }
 
+// crashExcerpt returns the part of a dead worker's stderr that says why it died (the Go runtime prints the
+// reason first and then every goroutine, which can be megabytes) followed by the tail.
+func crashExcerpt(path string) string {
+	b, err := os.ReadFile(path)
+	if err != nil {
+		return ""
+	}
+	s := "\n" + string(b)
+	if len(s) <= 24000 {
+		return s
+	}
+	first := -1
+	for _, kw := range []string{"\nfatal error:", "\npanic:", "\nruntime:", "\nSIGQUIT", "\nunexpected fault", "\nWARNING: DATA RACE", "\n[signal "} {
+		if i := strings.Index(s, kw); i >= 0 && (first < 0 || i < first) {
+			first = i
+		}
+	}
+	if first < 0 || first > len(s)-16000 {
+		return s[len(s)-24000:]
+	}
+	return s[first:first+8000] + "\n[...]\n" + s[len(s)-14000:]
+}
+
 type shardState struct {
 	shard   int
 	next    int
@@ -418,7 +441,7 @@ func Orchestrate(m *Monitor, o Options, bin string, scratch string) *Aggregate {
 				if ee, ok := err.(*exec.ExitError); ok {
 					code = ee.ExitCode()
 				}
-				et := tail(errf, 24000)
+				et := crashExcerpt(errf)
 				if pending >= 0 {
 					r := &Result{Idx: pending, Sig: fmt.Sprintf("dead-%d", pending)}
 					if code == 97 {
